@@ -138,6 +138,19 @@ def gen_crate(rng, base="c", root_name=None, max_files=5, depth=3, feats=(), bod
 
     gen_file(t.root, os.path.dirname(t.root), 0)
 
+    if "symlinkmod" in feats:
+        # two modules sharing one module file through a symbolic link; each has its own children directory
+        rd = os.path.dirname(t.root)
+        a, b, inn = "sla" + suffix, "slb" + suffix, "slin" + suffix
+        t.files[os.path.join(rd, a, "mod.rs")] = "mod %s;\n" % inn + body(rng)
+        t.files[os.path.join(rd, a, inn + ".rs")] = body(rng)
+        t.files[os.path.join(rd, b, "mod.rs")] = {"symlink": "../%s/mod.rs" % a}
+        t.files[os.path.join(rd, b, inn + ".rs")] = body(rng)
+        t.files[t.root] = "mod %s;\nmod %s;\n" % (a, b) + t.files[t.root]
+        t.reach += [os.path.join(rd, a, "mod.rs"), os.path.join(rd, a, inn + ".rs"), os.path.join(rd, b, inn + ".rs")]
+        t.decls += [(t.root, a, os.path.join(rd, a, "mod.rs")), (os.path.join(rd, a, "mod.rs"), inn, os.path.join(rd, a, inn + ".rs")),
+                    (os.path.join(rd, b, "mod.rs"), inn, os.path.join(rd, b, inn + ".rs"))]
+        t.features.add("symlinkmod")
     if "samestem" in feats and len(t.reach) >= 1 and rng.chance(50):
         # a #[path] target sharing stem and directory with a reachable .rs file (x.rs / x.inc)
         victim = rng.choice(t.reach)
